@@ -2329,6 +2329,38 @@ func TestTryAllocateFit(t *testing.T) {
 	assert.Equal(t, "node1", result.NodeID, "wrong node")
 }
 
+// The scheduling loop works on a copy of the application list of the queue: an application can be removed from its
+// queue (queue unset) after the copy was taken. Scheduling such an application must do nothing.
+func TestTryAllocateAfterUnSetQueue(t *testing.T) {
+	node := newNode("node1", map[string]resources.Quantity{"first": 5})
+	nodeMap := map[string]*Node{"node1": node}
+	iterator := getNodeIteratorFn(node)
+	getNode := func(nodeID string) *Node {
+		return nodeMap[nodeID]
+	}
+
+	rootQ, err := createRootQueue(map[string]string{"first": "5"})
+	assert.NilError(t, err)
+	childQ, err := createManagedQueue(rootQ, "child", false, map[string]string{"first": "5"})
+	assert.NilError(t, err)
+
+	app := newApplication(appID1, "default", "root.child")
+	app.SetQueue(childQ)
+	childQ.applications[appID1] = app
+	ask := newAllocationAsk("alloc1", appID1, resources.NewResourceFromMap(map[string]resources.Quantity{"first": 5}))
+	err = app.AddAllocationAsk(ask)
+	assert.NilError(t, err)
+
+	app.UnSetQueue()
+	preemptionAttemptsRemaining := 0
+	result := app.tryAllocate(node.GetAvailableResource(), true, 30*time.Second, &preemptionAttemptsRemaining, iterator, iterator, getNode)
+	assert.Assert(t, result == nil, "no allocation expected for an application without queue")
+	result = app.tryPlaceholderAllocate(iterator, getNode)
+	assert.Assert(t, result == nil, "no placeholder replacement expected for an application without queue")
+	result = app.tryReservedAllocate(node.GetAvailableResource(), iterator)
+	assert.Assert(t, result == nil, "no reserved allocation expected for an application without queue")
+}
+
 func TestTryAllocatePreemptQueue(t *testing.T) {
 	node := newNode("node1", map[string]resources.Quantity{"first": 20})
 	nodeMap := map[string]*Node{"node1": node}
